@@ -1157,3 +1157,38 @@ pub fn validate_simple(req: Request<Bytes>, node: &Node, now_ns: i128, accounts:
     let ev = std::mem::take(&mut shared.lock().unwrap().events);
     (rep.outs.into_iter().next().unwrap(), ev)
 }
+
+/// Control twin (C14): the same request, node, instant and provider *answer*, but an immediate
+/// provider (no pending states), alone on the executor.
+pub fn validate_control(req: Request<Bytes>, node: &Node, now_ns: i128, accounts: &[Account], script: &ProvScript, cache_level: u8) -> ValOut {
+    let shared = Arc::new(Mutex::new(Shared::new(accounts.to_vec(), cache_level)));
+    {
+        let mut sh = shared.lock().unwrap();
+        sh.record_events = false;
+        sh.scripts.push(ProvScript {
+            ready_pending: 0,
+            ready_wake: WakeMode::Immediate,
+            ready_err: script.ready_err.clone(),
+            answer_pending: 0,
+            answer_wake: WakeMode::Immediate,
+            answer: script.answer.clone(),
+        });
+    }
+    let mut t = Tape::replay(vec![]);
+    let rep = run_tasks(
+        &shared,
+        vec![vec![Job {
+            req,
+            node: node.clone(),
+            now_ns,
+            val: 0,
+        }]],
+        ExecPolicy {
+            spurious_one_in: 0,
+            cancel_one_in: 0,
+            step_cap: 100,
+        },
+        &mut t,
+    );
+    rep.outs.into_iter().next().unwrap()
+}
